@@ -87,8 +87,23 @@ def model (lines : List String) : List String :=
         | none => "bad-op" :: go d rest
   go { cfg := ⟨1, 0⟩ } lines
 
-/-- C01's statement (`holdsFrom`) evaluated on the implementation's outputs. Additionally any
-    panic / internal error printed by the harness is a violation of its own. -/
+/-- Rows missing from `got` relative to `want`, as (series, sample) pairs; `extra` likewise. -/
+def rowDiff (want got : List (Nat × List Smp)) : List (Nat × Smp) × List (Nat × Smp) :=
+  let flat := fun (r : List (Nat × List Smp)) => r.flatMap fun p => p.2.map fun x => (p.1, x)
+  let w := flat want
+  let g := flat got
+  (w.filter (fun x => !g.contains x), g.filter (fun x => !w.contains x))
+
+/-- C01's statement (`Ref.step`, i.e. `holdsFrom`) evaluated on the implementation's outputs.
+    Any panic / internal error printed by the harness is a violation of its own.
+
+    Classification of a failing query (used only to match `known_findings.jsonl`, finding F28): the
+    judge remembers, per series, the newest stored sample at the moment a deletion removed it
+    (`ghost`). If the only discrepancy of a query is that such samples — re-appended later with the
+    identical timestamp and value, acknowledged and committed — are missing, the verdict carries
+    `kind=identical-reappend-after-delete`; the judge then adopts the implementation's view for those
+    samples and keeps judging, so that a different discrepancy later in the same history is still
+    reported (and takes precedence). -/
 def judge (ops outs : List String) : String :=
   let pairs := ops.zip outs
   match pairs.findIdx? (fun p => p.2.startsWith "panic" || p.2.startsWith "err:") with
@@ -98,12 +113,38 @@ def judge (ops outs : List String) : String :=
       match parseOp? p.1 with
       | some op => some (op, parseOut op p.2)
       | none => none
-    match holdsFrom {} typed 0 with
-    | none => "ok"
-    | some k =>
-      match typed[k]? with
-      | some (.q a b, o) => s!"violation query-mismatch step={k} range=[{a},{b}] got={renderOut o}"
-      | _ => s!"violation query-mismatch step={k}"
+    let rec go (r : Ref) (ghost : List (Nat × Smp)) (known : Option String) (h : List (Op × Out)) (k : Nat) : String :=
+      match h with
+      | [] => known.getD "ok"
+      | (op, o) :: rest =>
+        match r.step op o with
+        | some r' =>
+          let ghost' := match op with
+            | .del a b sel =>
+              let hit : Nat → Bool := fun i => match sel with | none => true | some j => i == j
+              r.store.foldl (fun g p =>
+                match p.2.getLast? with
+                | some l =>
+                  -- the ghost is the newest PHYSICAL sample: never replace it by an older one
+                  let older := g.any fun q => q.1 == p.1 && decide (l.t < q.2.t)
+                  if hit p.1 && decide (a ≤ l.t ∧ l.t ≤ b) && !older then (p.1, l) :: g.filter (·.1 ≠ p.1) else g
+                | none => g) ghost
+            | _ => ghost
+          go r' ghost' known rest (k + 1)
+        | none =>
+          match op, o with
+          | .q a b, .rows got =>
+            let want := r.query a b
+            let (missing, extra) := rowDiff want got
+            if extra.isEmpty ∧ !missing.isEmpty ∧ missing.all (fun m => ghost.contains m) then
+              -- adopt the implementation's view of these samples and continue
+              let r' : Ref := { r with store := r.store.map fun p => (p.1, p.2.filter fun x => !missing.contains (p.1, x)) }
+              let msg := s!"violation query-mismatch kind=identical-reappend-after-delete step={k} range=[{a},{b}] missing={missing.map fun m => s!"s{m.1}@{m.2.t}"}"
+              go r' ghost (some (known.getD msg)) rest (k + 1)
+            else
+              s!"violation query-mismatch kind=other step={k} range=[{a},{b}] got={renderOut o} want={renderQuery want}"
+          | _, _ => s!"violation query-mismatch kind=other step={k} got={renderOut o}"
+    go {} [] none typed 0
 
 def suite : Suite := { name := "db", model := model, judge := judge }
 
